@@ -75,9 +75,9 @@ claim(
 claim(
     "C20",
     "runtime monitor on a virtual-time loop in four strata (S4: concurrent warm-up without eviction, then sequential eviction pressure vs a reference LRU ordered by use): S1 sequential lock-step differential vs a reference LRU (functools.lru_cache / reference with ttl), S2 strict concurrent history oracle (unique tokens, overlap, staleness, cross-key blocking, retention), S3 same oracle with F3 symptoms classified by mechanism precondition",
-    "Held (apart from the listed known findings F3, F16, F19) on every executed history: seeded sequential sequences over maxsize/typed/ttl "
+    "Held (apart from the listed known findings F3, F16, F19, F27, F35 - all rooted in the size accounting of the wrapper) on every executed history: seeded sequential sequences over maxsize/typed/ttl "
     "with virtual clock jumps, seeded concurrent histories with suspensions, failures, scope and native cancellations, cache_clear() agents, "
-    "virtual sleeps that let entries expire under concurrent callers.",
+    "virtual sleeps that let entries expire under concurrent callers, one wrapper used in two event loops (S5), calls made in an already cancelled scope.",
     "functools.lru_cache as reference where it applies; retained results counted via the public lru_cache_items RunVar; cache_info() not judged concurrently",
     "DESIGN.md 5/C20",
 )
@@ -102,13 +102,13 @@ claim("C02", "runtime monitor: compositional exception-leaf accounting by object
       "Held on every executed schedule: seeded random failure plans (raise before/while/after being cancelled, Boom from cleanup, mixed synthetic groups, start() children whose caller is cancelled) plus the failure-then-shield family.",
       _TREE_NOTE, "DESIGN.md 5/C02")
 claim("C03", "runtime monitor: bounded-progress oracle on a cycle-counting virtual-time loop (Deadlock in an effectively cancelled scope, delivery latency <= 4 cycles, no normal completion of an operation entered in a cancelled scope) against the shadow scope model",
-      "Held on every executed schedule: seeded random programs with blocking ops (sleep_forever, sleeps, event waits, handle waits) under cancels from self/sibling/agent before entry, while blocked, while runnable, during shielded cleanup, after catch-and-continue; exhaustive scope-chain family; spawn-into-cancelled-group family. Measured maximum latency is recorded.",
+      "Held on every executed schedule: seeded random programs with blocking ops (sleep_forever, sleeps, event waits, handle waits) under cancels from self/sibling/agent before entry, while blocked, while runnable, during shielded cleanup, after catch-and-continue; exhaustive scope-chain family; spawn-into-cancelled-group family; checkpoint_if_cancelled() with shields raised around it (late_shield family; a program that spins is a violation). Measured maximum latency is recorded.",
       _TREE_NOTE, "DESIGN.md 5/C03")
 claim("C04", "runtime monitor: shadow scope model evaluated at every interruption and every scope exit (absorb iff own cancel and no visible cancelled parent; cancelled_caught == absorbed; other exceptions pass, also inside groups)",
       "Held on every executed schedule: exhaustive scope chains of depth<=3 x shields x cancelled subsets x timing x canceller with a bystander task, plus seeded deep trees with shields toggled while active and synthetic mixed exception groups.",
       _TREE_NOTE, "DESIGN.md 5/C04")
 claim("C05", "runtime monitor: Task.cancelling() restored at scope/group exits in clean regions (also from a non-zero baseline: tasks holding native requests), no live loop handle of an exited scope, idle-loop cycle count, twin-differential runs of native asyncio constructs (timeout, TaskGroup, native cancel through a cancelled scope)",
-      "Held on every executed schedule: seeded programs, scope-history family (1-4 scopes in sequence x 0-5 swallowed re-deliveries x nesting x deadlines), native twins (4 scenarios x re-deliveries x nesting x children; native children cancelling the parent's scope) on {stock, eager}; known finding F21 (eager factory, CPython < 3.13) classified by mechanism.",
+      "Held on every executed schedule: seeded programs, scope-history family (1-4 scopes in sequence x 0-5 swallowed re-deliveries x nesting x deadlines), native twins (4 scenarios x re-deliveries x nesting x children; native children cancelling the parent's scope) on {stock, eager}; native constructs firing while the scope's own cancellation unwinds; known findings F21 (eager factory, CPython < 3.13) and F36 (native cancellation absorbed during the unwinding) classified by mechanism.",
       _TREE_NOTE, "DESIGN.md 5/C05")
 claim("C06", "runtime monitor on an exact virtual clock: interruption instants, flags and TimeoutError compared with the shadow model's discrete-event latching of deadlines; current_effective_deadline() probes",
       "Held on every executed program: exhaustive nests of <=3 deadline scopes x shields x 6-point deadline grid x 1-3 sleeps (plain, helper and reassign variants), plus seeded deadline-heavy programs with move_on_*/fail_* helpers, reassignments and timed agents. Not decided on uvloop (no virtual time).",
@@ -130,7 +130,7 @@ claim("C17", "fault enumeration by runtime monitoring: two real TLSStream endpoi
       "OpenSSL via ssl, trustme certificates; the Wire delivers in order and a cut drops everything after the offset; the transport's send() takes 1-4 cycles and rejects a second concurrent sender like SocketStream does; after a detected truncation a second receive and a send are issued",
       "DESIGN.md 5/C17")
 
-claim("C18", "runtime monitor on real sockets: position-dependent byte-stream oracle, chunk-size bounds, in-flight-bytes bound sampled while the reader is stalled (SO_SNDBUF/SO_RCVBUF pinned), EOF / closed-stream / busy-direction probes, close by a third task under blocked receive()/send(), close under cancellation / racing send, timed-out sends against a silent peer (user-space write buffer bounded)",
+claim("C18", "runtime monitor on real sockets: position-dependent byte-stream oracle, chunk-size bounds, in-flight-bytes bound sampled while the reader is stalled (SO_SNDBUF/SO_RCVBUF pinned), EOF / closed-stream / busy-direction probes, close by a third task under blocked receive()/send(), close under cancellation / racing send, timed-out sends against a silent peer (user-space write buffer bounded), send_fds() messages below and above the socket buffer size",
       "Held on every executed session: TCP loopback and UNIX sockets on asyncio and uvloop, both role assignments (accepted side reading / connecting side reading), message sizes 1 B..256 KiB and 1-2 MiB stall sessions, reader stalls before the first receive and mid-stream, full duplex, EOF by send_eof and aclose.",
       "Linux loopback/AF_UNIX semantics; real time: sessions without completion inside the watchdog are inconclusive - except a receive()/send() still blocked 15 s after the local close, which the statement forbids (never blocking); sessions over un-shrunk kernel buffers judge integrity/order only (no fixed capacity for the in-flight bound)",
       "DESIGN.md 5/C18")
